@@ -50,7 +50,7 @@ def main():
         W = "/tmp/wt/r2-%s" % pid  # round 2: scratch clones
     if any(m in ("m6", "m7", "m8") for m in ms):
         W = "/tmp/wt/r3-%s" % pid  # round 3
-    if any(m in ("m9", "m10", "m11") for m in ms):
+    if any(m in ("m9", "m10", "m11", "m11_alt") for m in ms):
         W = "/tmp/wt/r4-%s" % pid  # round 4
     take_slot()
     for m in ms:
